@@ -1599,6 +1599,16 @@ class Data(BaseCartesianData):
             cid = self.find_component_id(cname)
             self.remove_component(cid)
 
+        # If the number of dimensions changes, the pixel and world coordinates
+        # of the old shape are dropped here and created again below
+        ndim_changed = len(data._shape) != len(self._shape)
+        if ndim_changed:
+            for cid in list(self._world_component_ids) + list(self._pixel_component_ids):
+                self.remove_component(cid)
+            self._world_component_ids = ComponentIDList()
+            self._pixel_component_ids = ComponentIDList()
+            self._coords = None
+
         # Update shape
         self._shape = data._shape
 
@@ -1629,6 +1639,9 @@ class Data(BaseCartesianData):
 
         # Update data label
         self.label = data.label
+
+        if ndim_changed and len(self.components) > 0:
+            self._update_pixel_components(self.ndim)
 
         # Update data coordinates
         self.coords = data.coords
